@@ -2,8 +2,11 @@
 library on the tree under test and reports it under a fixed (monitor, feature) pair, which known_findings.txt lists.
 A probe that no longer reproduces reports nothing (the check then prints a NOTE for the listed finding)."""
 import ast
+import hashlib
 import json
 import os
+import socket
+import types
 
 
 def run(key, ctx, res):
@@ -304,7 +307,748 @@ def k25(cc, ctx, res):
                  "are applied before the defaults of the remaining fields are written)")
 
 
-PROBES = {"K9": k9, "K10": k10, "K11": k11, "K12": k12, "K13": k13, "K14": k14, "K15": k15, "K16": k16, "K17": k17, "K18": k18, "K19": k19,
-          "K20": k20, "K21": k21, "K22": k22, "K23": k23, "K24": k24, "K25": k25}
-BY_PROPERTY = {"C13": ["K9"], "C14": ["K10", "K11"], "C05": ["K12"], "C02": ["K13", "K22"], "C10": ["K14", "K15"], "C12": ["K16", "K25"],
-               "C16": ["K17", "K18"], "C04": ["K19"], "C06": ["K20", "K21"], "C20": ["K23"], "C03": ["K24"]}
+def k26(cc, ctx, res):
+    schema = cc.Schema()
+    schema.rows = cc.ListField(default=[[1, 2]])
+    try:
+        a = schema()
+        a.rows[0].append(3)
+        fresh = schema().rows
+        cc.reset_value(a, "rows")
+        restored = a.rows
+    except Exception:
+        return
+    if fresh == [[1, 2, 3]] or restored == [[1, 2, 3]]:
+        res.viol("M-state", "constant-default-copied-one-level-deep", "ListField(default=[[1, 2]]); a.rows[0].append(3) on one configuration: "
+                 "schema().rows == %r and a.rows after reset_value == %r (the constant default is copied one level deep, the inner list is the "
+                 "same object in the schema and in every configuration; DictField(default={'a': {'b': 1}}) alike)" % (fresh, restored))
+
+
+def k27(cc, ctx, res):
+    if "VFK27_PLUGINS" in os.environ:
+        return
+    schema = cc.Schema(env="VFK27")
+    schema.plugins = cc.ListField(cc.StringField(), default=[])
+    os.environ["VFK27_PLUGINS"] = "from-env"
+    try:
+        cfg = schema()
+        fresh = list(cfg.plugins)
+        cfg.load_tree({"plugins": ["x"]})
+        got, defined = list(cfg.plugins), cc.is_value_defined(cfg, "plugins")
+    except Exception:
+        return
+    finally:
+        del os.environ["VFK27_PLUGINS"]
+    if fresh == [] and got == [] and not defined:
+        res.viol("M-state", "variable-the-field-ignores-blocks-the-load", "VFK27_PLUGINS=from-env; ListField(StringField(), default=[]) under "
+                 "Schema(env='VFK27'): the fresh value is %r (the variable is not used), load_tree({'plugins': ['x']}) succeeds and plugins == %r, "
+                 "user-defined == %r (load_tree skips every field whose variable is set, also the list / dict / challenge fields whose "
+                 "__setdefault__ never reads it)" % (fresh, got, defined))
+
+
+def k28(cc, ctx, res):
+    schema = cc.Schema()
+    schema.x = cc.IntField(default=1)
+    schema.double = cc.VirtualField(lambda cfg: cfg.x * 2)
+    schema.alias = cc.VirtualField(lambda cfg: cfg.x, lambda cfg, value: setattr(cfg, "x", value))
+    try:
+        cc.instance_method(schema, "hello")(lambda cfg: "hello")
+        cfg = schema()
+        fresh = [key for key in ("x", "double", "alias", "hello") if cc.is_value_defined(cfg, key)]
+        cfg.alias = 5
+        cc.reset_value(cfg, "alias")
+        after_reset = cc.is_value_defined(cfg, "alias")
+    except Exception:
+        return
+    if fresh or after_reset:
+        res.viol("M-state", "computed-fields-read-user-defined-on-a-fresh-configuration", "on schema() with nothing assigned is_value_defined is "
+                 "True for %r; cfg.alias = 5; reset_value(cfg, 'alias') leaves is_value_defined == %r (VirtualField.__setdefault__ and "
+                 "InstanceMethodField.__setdefault__ never record their key as default)" % (fresh, after_reset))
+
+
+def k29(cc, ctx, res):
+    schema = cc.Schema()
+    schema.port = cc.IntField(default=80)
+    schema.sub.x = cc.IntField(default=1)
+    schema.sub.inner.y = cc.IntField(default=2)
+    a, b = schema(), schema()
+    sub, inner = a.sub, a.sub.inner
+    try:
+        schema(sub=sub, port="not a number")
+        return
+    except Exception:
+        pass
+    try:
+        b.sub = {"inner": inner, "x": "not a number"}
+        return
+    except Exception:
+        pass
+    if a.sub is sub and sub.inner is inner and (sub._parent is not a or inner._parent is not sub):
+        res.viol("M-same", "section-taken-over-before-a-later-key-is-refused", "schema(sub=a.sub, port='not a number') and b.sub = {'inner': "
+                 "a.sub.inner, 'x': 'not a number'} both raise for the later key, but afterwards a.sub._parent is a == %r and "
+                 "a.sub.inner._parent is a.sub == %r (constructor keywords and the keys of a map assigned to a section are applied one by one; "
+                 "a section handed over by an earlier key stays with the discarded configuration and looks for its key file there)"
+                 % (sub._parent is a, inner._parent is sub))
+
+
+def k30(cc, ctx, res):
+    def at_most_two(cfg, value):
+        if len(value) > 2 or any(item.port == 13 for item in value):
+            raise ValueError("at most two servers, none on port 13")
+        return value
+
+    server = cc.Schema()
+    server.port = cc.IntField(default=80)
+    schema = cc.Schema()
+    schema.servers = cc.ListField(server, validator=at_most_two)
+    schema.others = cc.ListField(server)
+    a, b = schema(), schema()
+    try:
+        a.servers = [{"port": 1}, {"port": 2}]
+        a.others = [{"port": 13}]
+        first, other = a.servers[0], a.others[0]
+        before = cc.item_ref_path(first)
+        derived = a.servers.copy()
+        derived.insert(0, {"port": 0})
+    except Exception:
+        return
+    try:
+        a.servers = derived
+        return
+    except Exception:
+        pass
+    try:
+        b.servers = [other]
+        return
+    except Exception:
+        pass
+    try:
+        after = cc.item_ref_path(first)
+    except Exception:
+        return
+    if a.servers[0] is first and a.others[0] is other and (after != before or other._parent is not a):
+        res.viol("M-same", "list-items-taken-over-before-the-field-validator-refuses", "ListField(server, validator=at_most_two): a.servers = "
+                 "<copy of a.servers with an item inserted in front> is refused by the validator, but item_ref_path(a.servers[0]) went from %r "
+                 "to %r; b.servers = [a.others[0]] is refused by the validator, but a.others[0]._parent is a == %r (ListField._validate "
+                 "re-points / takes over the items before Field.validate runs the field's validator; nothing gives them back)"
+                 % (before, after, other._parent is a))
+
+
+def k31(cc, ctx, res):
+    d = ctx.dir
+    schema = cc.Schema()
+    schema.inc1 = cc.IncludeField(startdir=d)
+    schema.inc2 = cc.IncludeField(startdir=d)
+    schema.x = cc.IntField(default=0)
+    schema.y = cc.IntField(default=0)
+    for name, tree in (("k31-leaf.json", {"y": 5}), ("k31-names-inc2.json", {"x": 1, "inc2": "k31-leaf.json"}),
+                       ("k31-names-inc1.json", {"x": 1, "inc1": "k31-leaf.json"})):
+        with open(os.path.join(d, name), "w") as fp:
+            json.dump(tree, fp)
+    a, b = schema(), schema()
+    try:
+        a.loads(json.dumps({"inc1": "k31-names-inc2.json"}), "json")
+        b.loads(json.dumps({"inc2": "k31-names-inc1.json"}), "json")
+        got = (a.y, b.y, b.inc1)
+    except Exception:
+        return
+    if got[0] != got[1]:
+        res.viol("M-include", "chained-include-followed-depending-on-field-order", "inc1, inc2 declared in this order; document -> inc1 -> file naming "
+                 "inc2 = leaf.json ({'y': 5}) gives y == %r, document -> inc2 -> file naming inc1 = leaf.json gives y == %r although inc1 == %r "
+                 "afterwards (include fields are looked at once each, in declaration order, against the tree merged so far)" % got)
+
+
+def k32(cc, ctx, res):
+    home = os.environ.get("HOME")
+    if not home or not os.path.isdir(home):
+        return
+    work = os.path.join(ctx.dir, "k32-work")
+    in_home = os.path.join(home, "k32-inc.json")
+    if os.path.exists(in_home):
+        return
+    os.makedirs(os.path.join(work, "~"))
+    with open(os.path.join(work, "~", "k32-inc.json"), "w") as fp:
+        json.dump({"x": 1}, fp)
+    with open(in_home, "w") as fp:
+        json.dump({"x": 666}, fp)
+    schema = cc.Schema()
+    schema.include = cc.IncludeField()
+    schema.x = cc.IntField(default=0)
+    cfg = schema()
+    cwd = os.getcwd()
+    try:
+        os.chdir(work)
+        cfg.loads(json.dumps({"include": "~/k32-inc.json"}), "json")
+        got = (cfg.include, cfg.x)
+    except Exception:
+        return
+    finally:
+        os.chdir(cwd)
+        os.remove(in_home)
+    if got[1] == 666:
+        res.viol("M-include", "tilde-name-checked-as-one-file-opened-as-another", "IncludeField() without a start directory, ./~/k32-inc.json = "
+                 "{'x': 1}, $HOME/k32-inc.json = {'x': 666}: loading {'include': '~/k32-inc.json'} stores include == %r (checked to exist below "
+                 "the current directory) but x == %r: the file under $HOME is the one opened (expanduser only at open time)" % got)
+
+
+def k33(cc, ctx, res):
+    from cincoconfig.fields import DigestValue
+
+    schema = cc.Schema()
+    schema.password = cc.ChallengeField("sha256")
+    cfg = schema()
+    try:
+        cfg.password = DigestValue.create("hunter2", hashlib.md5, salt=b"0123456789abcdef")
+        accepted = cfg.password
+        accepted.challenge("hunter2")
+        back = schema()
+        back.loads(cfg.dumps("json"), "json")
+        loaded = back.password
+    except Exception:
+        return
+    try:
+        loaded.challenge("hunter2")
+        answers = True
+    except Exception:
+        answers = False
+    if loaded != accepted or not answers:
+        res.viol("M-accept", "digest-of-another-algorithm-accepted-and-relabelled", "ChallengeField('sha256') accepts DigestValue.create('hunter2', "
+                 "hashlib.md5), which answers challenge('hunter2'); after dumps/loads (json) the digest is tagged %s, equal to the accepted value: %r, "
+                 "answers challenge('hunter2'): %r (the on-disk form holds salt and digest only; the load relabels it with the field's algorithm)"
+                 % (getattr(getattr(loaded, "algorithm", None), "__name__", "?"), loaded == accepted, answers))
+
+
+def k34(cc, ctx, res):
+    schema = cc.Schema()
+    schema.ports = cc.ListField(cc.IntField(min=1, max=9))
+    schema.blobs = cc.DictField(cc.IntField(), cc.BytesField())
+    direct = []
+    for key, value in (("ports", "123"), ("blobs", ["1a"])):
+        try:
+            schema()[key] = value
+            direct.append(key)
+        except Exception:
+            pass
+    if direct:
+        return
+    got = []
+    for key, value in (("ports", "123"), ("blobs", ["1a"])):
+        cfg = schema()
+        try:
+            cfg.load_tree({key: value})
+            held = cfg[key]
+            got.append("load_tree({%r: %r}) -> %r" % (key, value, dict(held) if isinstance(held, dict) else list(held)))
+        except Exception:
+            pass
+    if got:
+        res.viol("M-accept", "document-value-that-is-no-container-becomes-a-typed-container", "ListField(IntField(min=1, max=9)) / DictField(IntField(), "
+                 "BytesField()) refuse the string '123' / the list ['1a'] on assignment, but a document is accepted: %s (to_python hands any value to "
+                 "ListProxy / DictProxy, which iterate it)" % "; ".join(got))
+
+
+def k35(cc, ctx, res):
+    schema = cc.Schema()
+    schema.host = cc.HostnameField(resolve=True, allow_ipv4=False)
+    cfg = schema()
+    real = socket.gethostbyname
+    socket.gethostbyname = lambda name: "192.0.2.7"
+    try:
+        try:
+            stored = schema.host.validate(cfg, "db.example.test")
+        except Exception:
+            return
+        try:
+            schema.host.validate(cfg, stored)
+            again = None
+        except Exception as exc:
+            again = exc
+    finally:
+        socket.gethostbyname = real
+    if again is not None:
+        res.viol("M-idempotent", "not-idempotent:resolved-address-refused", "HostnameField(resolve=True, allow_ipv4=False): validate('db.example.test') "
+                 "gives %r (the resolver's answer), which the same field rejects (%s): the resolve branch returns the address although "
+                 "allow_ipv4=False refuses addresses" % (stored, again))
+
+
+def k36(cc, ctx, res):
+    secret = b"s3cr\xe9t-bytes"
+    schema = cc.Schema()
+    schema.password = cc.ChallengeField("sha256")
+    cfg = schema()
+    try:
+        cfg.password = secret
+        cfg.password.challenge(secret)
+        text = schema()
+        text.load_tree({"password": "hand-written"})
+        text.password.challenge("hand-written")
+    except Exception:
+        return
+    loaded = schema()
+    try:
+        loaded.load_tree({"password": secret})
+        loaded.password.challenge(secret)
+    except Exception as exc:
+        res.viol("M-hand", "byte-string-plaintext-in-a-document-is-refused", "ChallengeField('sha256') hashes the assigned byte string %r and the string "
+                 "'hand-written' of a document, but load_tree({'password': %r}) fails: %s (to_python knows dict and str only; YAML !!binary, BSON "
+                 "binary and pickle carry byte strings)" % (secret, secret, exc))
+
+
+def k37(cc, ctx, res):
+    schema = cc.Schema()
+    schema.net = cc.IPv4NetworkField(max_len=12)
+    schema.zone = cc.IPv4NetworkField(choices=["10.0.0.0/255.0.0.0"])
+    cfg = schema()
+    try:
+        cfg.net = "192.168.1.1"
+        cfg.zone = "10.0.0.0/255.0.0.0"
+        net, zone = cfg.net, cfg.zone
+    except Exception:
+        return
+    if len(net) <= 12 and zone == "10.0.0.0/255.0.0.0":
+        return
+    try:
+        cfg.validate()
+        again = None
+    except Exception as exc:
+        again = exc
+    if again is not None:
+        res.viol("M-inv", "normalised-text-never-meets-the-string-constraints", "IPv4NetworkField(max_len=12) accepts '192.168.1.1' and holds %r "
+                 "(%d characters), IPv4NetworkField(choices=['10.0.0.0/255.0.0.0']) accepts its only choice and holds %r; cfg.validate() on the "
+                 "untouched configuration fails (%s): length, pattern and choices are checked on the text as typed, the normal form that is "
+                 "stored is never checked (FilenameField(startdir=...) and HostnameField(resolve=True) alike)" % (net, len(net), zone, again))
+
+
+def k38(cc, ctx, res):
+    schema = cc.Schema()
+    schema.url = cc.UrlField()
+    held = []
+    for how, text in (("assigned", "ht\ntp://example.com/"), ("loaded", "http://example.com/\r\nX-Injected: 1"), ("assigned", " \x00http://example.com/")):
+        cfg = schema()
+        try:
+            if how == "assigned":
+                cfg.url = text
+            else:
+                cfg.load_tree({"url": text})
+            stored = cfg.url
+        except Exception:
+            continue
+        if isinstance(stored, str) and any(ord(ch) <= 32 or ord(ch) == 127 for ch in stored):
+            held.append("%s %r -> url == %r" % (how, text, stored))
+    if held:
+        res.viol("M-inv", "url-with-control-characters-or-blanks", "UrlField holds text that is not a URL: %s (the only check is "
+                 "urlparse(value).scheme, and urlparse strips leading blanks / control characters and deletes TAB, CR and LF before it parses, "
+                 "so the scheme it reports is not in the stored string)" % "; ".join(held))
+
+
+def k39(cc, ctx, res):
+    # never serialise a configuration whose secret is an int: the xor provider would allocate that many bytes
+    schema = cc.Schema()
+    schema.name = cc.SecureField(method="xor")
+    keyfile = os.path.join(ctx.dir, "k39.key")
+    cfg = cc.Config(schema, key_filename=keyfile)
+    try:
+        cfg.name = 12345
+        stored = cfg.name
+    except Exception:
+        return
+    if isinstance(stored, (str, bytes)) or stored is None:
+        return
+    other = cc.Config(schema, key_filename=keyfile)
+    try:
+        other.load_tree({"name": 12345})
+        refused = None
+    except Exception as exc:
+        refused = exc
+    res.viol("M-inv", "secret-field-holds-a-value-that-is-not-text", "SecureField (storage type str): cfg.name = 12345 is accepted and read back as "
+             "%r (%s); load_tree({'name': 12345}) on the same schema %s: the field has no _validate, only to_python on the load path looks at the "
+             "type" % (stored, type(stored).__name__, "is refused (%s)" % refused if refused is not None else "is accepted too"))
+
+
+def k40(cc, ctx, res):
+    item = cc.Schema()
+    item.name = cc.StringField(required=True)
+    schema = cc.Schema()
+    schema.title = cc.StringField(default="t")
+    schema.servers = cc.ListField(item)
+    cfg = schema()
+    try:
+        cfg.load_tree({"servers": [{"name": "a"}]})
+        cc.reset_value(cfg.servers[0], "name")
+        if cfg.servers[0].name is not None:
+            return
+    except Exception:
+        return
+    try:
+        cfg.servers[0].validate()
+        return
+    except Exception as exc:
+        alone = exc
+    try:
+        errors = cfg.validate(collect_errors=True)
+        cfg.validate()
+        cfg.load_tree({"title": "x"})
+    except Exception:
+        return
+    if not errors:
+        res.viol("M-required", "items-of-a-stored-list-are-not-looked-at-again", "servers = ListField(item) with item.name required; after "
+                 "reset_value(cfg.servers[0], 'name') the item's own validate() raises (%s) but cfg.validate() returns, "
+                 "cfg.validate(collect_errors=True) == %r and cfg.load_tree({'title': 'x'}) returns: the stored list is handed back "
+                 "without visiting its configurations" % (alone, errors))
+
+
+def k41(cc, ctx, res):
+    calls = []
+    limits = cc.Schema()
+    limits.lo = cc.IntField(default=0)
+    limits.hi = cc.IntField(default=10)
+    try:
+        schema = cc.Schema()
+        schema.limits = cc.make_type(limits, "K41Limits", module="vf_types")
+
+        @cc.validator(schema.limits)
+        def check(cfg):
+            calls.append(1)
+            if cfg.lo > cfg.hi:
+                raise ValueError("lo must not be above hi")
+    except Exception:
+        return
+    cfg = schema()
+    try:
+        cfg.load_tree({"limits": {"lo": 50, "hi": 2}})
+        errors = cfg.validate(collect_errors=True)
+        got = (cfg.limits.lo, cfg.limits.hi)
+    except Exception:
+        return
+    if not calls and not errors:
+        res.viol("M-validators", "validator-on-a-configuration-type-section-is-dropped", "schema.limits = make_type(limits, ...); "
+                 "@validator(schema.limits) rejecting lo > hi is accepted, yet load_tree({'limits': {'lo': 50, 'hi': 2}}) returns with "
+                 "lo, hi == %r, validate(collect_errors=True) == %r and the function ran %d times (validator() has no branch for the "
+                 "field that wraps a configuration type and no else)" % (got, errors, len(calls)))
+
+
+def k42(cc, ctx, res):
+    schema = cc.Schema()
+    schema.site = cc.IncludeField(required=True)
+    schema.port = cc.IntField(default=80)
+    cfg = schema()
+    try:
+        cfg.loads(b'{"port": 1}', "json")
+        cfg.load_tree({"port": 2})
+        errors = cfg.validate(collect_errors=True)
+        cfg.validate()
+        site = cfg.site
+    except Exception:
+        return
+    if site is None and not errors:
+        res.viol("M-required", "required-include-field-is-never-enforced", "schema.site = IncludeField(required=True): loads(b'{\"port\": 1}', "
+                 "'json'), load_tree({'port': 2}) and validate() return, validate(collect_errors=True) == %r and site is %r (the final "
+                 "validation skips include fields altogether, so the requirement is only seen when the key is given as null)" % (errors, site))
+
+
+def k43(cc, ctx, res):
+    schema = cc.Schema()
+    schema.level = cc.LogLevelField(default="INFO")
+    schema.workers = cc.IntField(default="5")
+    blob = cc.Schema()
+    blob.token = cc.BytesField(default="text")
+    try:
+        cfg, bcfg = schema(), blob()
+        cfg.validate()
+        bcfg.validate()
+        before = (cfg.level, cfg.workers, bcfg.token)
+        fresh = schema()
+        fresh.loads(cfg.dumps("json"), "json")
+        after = (fresh.level, fresh.workers)
+    except Exception:
+        return
+    try:
+        bcfg.dumps("json")
+        failed = None
+    except Exception as exc:
+        failed = exc
+    if repr(before[:2]) != repr(after) or failed is not None:
+        res.viol("M-roundtrip", "default-is-stored-as-written-not-as-validated", "LogLevelField(default='INFO'), IntField(default='5'): the "
+                 "configuration holds %r, passes validate(), and its JSON document loads back as %r; BytesField(default='text') holds %r, passes "
+                 "validate() and dumps('json') gives %s: Field.__setdefault__ stores the default without the conversion every assigned or "
+                 "environment-supplied value gets" % (before[:2], after, before[2], "an error (%s)" % failed if failed is not None else "a document"))
+
+
+def k44(cc, ctx, res):
+    schema = cc.Schema()
+    schema.api_key = cc.SecureField(method="xor")
+    keyfile = os.path.join(ctx.dir, "k44.key")
+    out = []
+    for secret in (b"\xff\xfe\x00\x80key", b"hunter2"):
+        cfg = cc.Config(schema, key_filename=keyfile)
+        try:
+            cfg.api_key = secret
+            stored = cfg.api_key
+            cfg.validate()
+            doc = cfg.dumps("json")
+        except Exception:
+            continue
+        if not isinstance(stored, bytes):
+            continue
+        fresh = cc.Config(schema, key_filename=keyfile)
+        try:
+            fresh.loads(doc, "json")
+        except Exception as exc:
+            out.append("api_key = %r is held, passes validate() and is saved, the document does not load (%s)" % (stored, exc))
+            continue
+        if fresh.api_key != stored or type(fresh.api_key) is not type(stored):
+            out.append("api_key = %r comes back as %r" % (stored, fresh.api_key))
+    if out:
+        res.viol("M-roundtrip", "secret-given-as-bytes-does-not-come-back", "SecureField(method='xor'): %s (no _validate, to_basic encrypts str "
+                 "or bytes, to_python always ends in text.decode())" % "; ".join(out))
+
+
+def k45(cc, ctx, res):
+    schema = cc.Schema()
+    try:
+        schema.ident = cc.StringField(transform_strip="x", transform_case="lower")
+        cfg = schema()
+        cfg.ident = "Xabc"
+        stored = cfg.ident
+        cfg.validate()
+        fresh = schema()
+        fresh.loads(cfg.dumps("json"), "json")
+        back = fresh.ident
+    except Exception:
+        return
+    if back != stored:
+        res.viol("M-roundtrip", "strip-then-case-value-changes-on-reload", "StringField(transform_strip='x', transform_case='lower'): 'Xabc' is stored as "
+                 "%r, its own json document loads back as %r (the characters are stripped before the case is changed, so the stored value is "
+                 "stripped again when the load validates it: validation is not idempotent)" % (stored, back))
+
+
+def k46(cc, ctx, res):
+    schema = cc.Schema()
+    schema.labels = cc.DictField()
+    cfg = schema()
+    path = os.path.join(ctx.dir, "k46.xml")
+    try:
+        cfg.labels = {"a>": "v"}
+        cfg.save(path, "xml")
+    except Exception:
+        return
+    try:
+        fresh = schema()
+        fresh.load(path, "xml")
+        back = dict(fresh.labels)
+    except Exception as exc:
+        back = "%s: %s" % (type(exc).__name__, exc)
+    if back != {"a>": "v"}:
+        res.viol("M-file", "xml:key-that-changes-the-meaning-of-the-document", "DictField() holding {'a>': 'v'}: save() as xml succeeds and the file "
+                 "loads back as %r (the key is used as the element name unchecked: '<a> type=\"str\">v</a>' is well formed and means something "
+                 "else; json keeps the entry)" % (back,))
+
+
+def k47(cc, ctx, res):
+    schema = cc.Schema()
+    schema.ports = cc.ListField()
+    cfg = schema()
+    path = os.path.join(ctx.dir, "k47.json")
+    try:
+        cfg.ports = (80, 443)
+        stored = cfg.ports
+        cfg.save(path, "json")
+        fresh = schema()
+        fresh.load(path, "json")
+        back = fresh.ports
+    except Exception:
+        return
+    if back != stored:
+        res.viol("M-file", "tuple-in-a-list-without-item-type-comes-back-as-a-list", "ListField() without item field: cfg.ports = (80, 443) keeps the "
+                 "tuple %r; save() writes a list and load() of the file gives %r, which is not equal to the saved configuration's value "
+                 "(a tuple default is converted to a list, an assigned tuple is not)" % (stored, back))
+
+
+def k48(cc, ctx, res):
+    schema = cc.Schema()
+    schema.limits = cc.DictField(cc.StringField(), cc.IntField(), default=lambda: {})
+    cfg = schema()
+    try:
+        cfg.limits.update({"cpu": "2"}, mem=4)
+        builtin = dict(cfg.limits)
+        other = types.MappingProxyType({"cpu": 2, "mem": 4})
+        want = (builtin == other, builtin != other)
+        got = (cfg.limits == other, cfg.limits != other)
+    except Exception:
+        return
+    if builtin == {"cpu": 2, "mem": 4} and got != want:
+        res.viol("M-differential", "equality-with-a-mapping-that-is-no-dict", "typed dict {'cpu': 2, 'mem': 4} against an equal types.MappingProxyType: "
+                 "(==, !=) is %r, the built-in dict gives %r (DictProxy.__eq__ answers False for anything that is no dict instead of "
+                 "NotImplemented, so the other operand is never asked; the inherited __ne__ still defers)" % (got, want))
+
+
+def k49(cc, ctx, res):
+    server = cc.Schema()
+    server.port = cc.IntField(default=1)
+    server_t = cc.make_type(server, "K49Server", module="vf_types")
+    schema = cc.Schema()
+    schema.primary = server_t
+    schema.backups = cc.ListField(server_t)
+    cfg = schema()
+    try:
+        cfg.backups = [{}, {}, {}]
+        cfg.primary = cfg.backups.pop(1)
+        cfg.primary.port = "x"
+        return
+    except cc.ValidationError as exc:
+        path, text = exc.ref_path, str(exc)
+    except Exception:
+        return
+    if isinstance(path, str) and path.startswith("primary["):
+        res.viol("M-exc", "path:section-taken-out-of-a-list-keeps-an-index", "cfg.backups = [{}, {}, {}]; cfg.primary = cfg.backups.pop(1); "
+                 "cfg.primary.port = 'x' is refused with ref_path %r (%r) instead of 'primary.port': a configuration that was a list item and "
+                 "is assigned to a section gets a new parent and key but keeps its link to the list, which the path turns into an index"
+                 % (path, text[:60]))
+
+
+def k50(cc, ctx, res):
+    user = cc.Schema()
+    user.age = cc.IntField(default=1)
+    user.address.zip = cc.IntField(default=2)
+    schema = cc.Schema()
+    schema.users = cc.ListField(user)
+    cfg = schema()
+    try:
+        cfg.load_tree({"users": [{}, {}, {}, {}]})
+        third, fourth = cfg.users[2], cfg.users[3]
+    except Exception:
+        return
+    try:
+        cfg.users = [fourth, third, {"age": "bad"}]
+        return
+    except Exception:
+        pass
+    paths = []
+    for target, key in ((fourth, "age"), (third.address, "zip")):
+        try:
+            setattr(target, key, "x")
+            return
+        except cc.ValidationError as exc:
+            paths.append(exc.ref_path)
+        except Exception:
+            return
+    if len(cfg.users) == 4 and cfg.users[2] is third and cfg.users[3] is fourth and paths != ["users[3].age", "users[2].address.zip"]:
+        res.viol("M-exc", "path:items-offered-to-a-refused-list-keep-its-indices", "cfg.users = [cfg.users[3], cfg.users[2], {'age': 'bad'}] is "
+                 "refused and the four stored items stay in place, but afterwards cfg.users[3].age = 'x' and cfg.users[2].address.zip = 'x' are "
+                 "refused with ref_path %r and %r: the items offered before the bad one keep pointing at the discarded list (only the refused "
+                 "item is given back)" % (paths[0], paths[1]))
+
+
+def k51(cc, ctx, res):
+    schema = cc.Schema()
+    schema.include = cc.IncludeField()
+    schema.port = cc.IntField(default=1)
+    schema.sub.include = cc.IncludeField()
+    schema.sub.port = cc.IntField(default=2)
+    part = os.path.join(ctx.dir, "k51-list.json")
+    with open(part, "w") as fp:
+        fp.write("[1, 2]")
+    out = []
+    for label, tree in (("{'include': ''}", {"include": ""}), ("{'sub': {'include': <file holding [1, 2]>}}", {"sub": {"include": part}})):
+        try:
+            schema().loads(json.dumps(tree), "json")
+        except cc.ValidationError:
+            pass
+        except Exception as exc:
+            out.append("%s -> %s(%s)" % (label, type(exc).__name__, str(exc)[:60]))
+    if out:
+        res.viol("M-exc", "type:include-name-empty-or-included-root-not-a-map", "loads of a json document with an include field: %s instead of a "
+                 "ValidationError naming the include field (Config._process_includes only converts ValueError; the empty name skips the "
+                 "existence check and reaches open(''), a root that is not a map reaches combine_trees)" % "; ".join(out))
+
+
+def k52(cc, ctx, res):
+    schema = cc.Schema()
+    schema.plain = cc.ListField()
+    schema.mapping = cc.DictField()
+    try:
+        a, b = schema(), schema()
+        a.plain = [1, 2]
+        a.mapping = {"k": 1}
+        b.plain = a.plain
+        b.mapping = a.mapping
+        b.plain.append(99)
+        b.mapping["new"] = 99
+        seen = (list(a.plain), dict(a.mapping))
+    except Exception:
+        return
+    if seen != ([1, 2], {"k": 1}):
+        res.viol("M-twin", "untyped-container-stored-by-reference-between-configurations", "ListField() / DictField() without item type: "
+                 "b.plain = a.plain; b.mapping = a.mapping; b.plain.append(99); b.mapping['new'] = 99 -> a.plain == %r, a.mapping == %r "
+                 "(the untyped branches of ListField._validate / DictField._validate return the object they are given, so b holds a's "
+                 "own container; ListField(AnyField()) alike)" % seen)
+
+
+def k53(cc, ctx, res):
+    schema = cc.Schema(dynamic=True)
+    schema.rows = cc.ListField()
+    try:
+        a, b = schema(), schema()
+        a.extra = {"k": [1]}
+        a.rows = [[1], [2]]
+        b.load_tree(a.to_tree())
+        b.extra["z"] = 1
+        b.rows[0].append(9)
+        seen = (a.extra, a.rows)
+    except Exception:
+        return
+    if seen != ({"k": [1]}, [[1], [2]]):
+        res.viol("M-twin", "tree-of-one-configuration-loaded-into-another-shares-untyped-values", "dynamic schema with rows = ListField(): "
+                 "a.extra = {'k': [1]}; a.rows = [[1], [2]]; b.load_tree(a.to_tree()); b.extra['z'] = 1; b.rows[0].append(9) -> a.extra == %r, "
+                 "a.rows == %r (to_tree hands out the live value of an extra field and copies untyped lists / dicts one level deep, load_tree "
+                 "stores them by reference)" % seen)
+
+
+def k54(cc, ctx, res):
+    schema = cc.Schema()
+    schema.anys = cc.ListField(cc.AnyField(), default=lambda: [])
+    cfg = schema()
+    try:
+        cfg.anys = (1, "2")
+    except Exception:
+        return
+    kind = type(cfg.anys).__name__
+    try:
+        cfg.anys.append(3)
+        got = list(cfg.anys)
+    except Exception as exc:
+        got = "%s: %s" % (type(exc).__name__, exc)
+    if got != [1, "2", 3]:
+        res.viol("M-differential", "tuple-for-a-list-of-any-items-is-kept-as-a-tuple", "ListField(AnyField()): after cfg.anys = (1, '2') the value is "
+                 "a %s and anys.append(3) gives %r where the built-in list gives [1, '2', 3] (every other item field turns the tuple into a "
+                 "typed list, and so does the default of this very field)" % (kind, got))
+
+
+def k55(cc, ctx, res):
+    schema = cc.Schema()
+    path = os.path.join(ctx.dir, "k55.json")
+    try:
+        schema.ident = cc.StringField(transform_strip="0x", transform_case="lower")
+        cfg = schema()
+        cfg.ident = "0X1F0"
+        stored = cfg.ident
+        cfg.validate()
+        cfg.save(path, "json")
+        fresh = schema()
+        fresh.load(path, "json")
+        back = fresh.ident
+    except Exception:
+        return
+    if back != stored:
+        res.viol("M-file", "strip-then-case-value-changes-on-reload", "StringField(transform_strip='0x', transform_case='lower'): '0X1F0' is stored as "
+                 "%r; save() to a json file succeeds and load() of that file into a fresh configuration gives %r (strip runs before the case "
+                 "change, so the load strips the saved value once more)" % (stored, back))
+
+
+PROBES = {"K9": k9, "K10": k10, "K11": k11, "K12": k12, "K13": k13, "K14": k14, "K15": k15, "K16": k16, "K17": k17, "K18": k18, "K19": k19, "K20":
+    k20, "K21": k21, "K22": k22, "K23": k23, "K24": k24, "K25": k25, "K26": k26, "K27": k27, "K28": k28, "K29": k29, "K30": k30, "K31": k31, "K32":
+    k32, "K33": k33, "K34": k34, "K35": k35, "K36": k36, "K37": k37, "K38": k38, "K39": k39, "K40": k40, "K41": k41, "K42": k42, "K43": k43, "K44":
+    k44, "K45": k45, "K46": k46, "K47": k47, "K48": k48, "K49": k49, "K50": k50, "K51": k51, "K52": k52, "K53": k53, "K54": k54, "K55": k55}
+BY_PROPERTY = {"C01": ["K37", "K38", "K39"], "C02": ["K13", "K22", "K43", "K44", "K45"], "C03": ["K24"], "C04": ["K19"], "C05": ["K12", "K33", "K34",
+    "K35"], "C06": ["K20", "K21", "K29", "K30"], "C09": ["K36"], "C10": ["K14", "K15"], "C11": ["K40", "K41", "K42"], "C12": ["K16", "K25", "K26",
+    "K27", "K28"], "C13": ["K9", "K52", "K53"], "C14": ["K10", "K11"], "C15": ["K49", "K50", "K51"], "C16": ["K17", "K18"], "C17": ["K48", "K54"],
+    "C18": ["K31", "K32"], "C19": ["K46", "K47", "K55"], "C20": ["K23"]}
